@@ -620,6 +620,8 @@ def oracle_factory(t, r):
         return f"[clone-behaves-differently] the clone of `{f}`/`{id_}` answers the probe input differently"
     if r.s() != "origsame" or r.s() != "1":
         return f"[clone-not-independent] modifying the clone (or a second object) of `{f}`/`{id_}` changed the original/prototype"
+    if r.s() != "reclone" or r.s() != "1":
+        return f"[clone-differs] the clone of a modified `{f}`/`{id_}` does not carry the modified parameters"
     if r.s() != "clone" or r.int() != n:
         return f"[clone-differs] the clone of `{f}`/`{id_}` has a different number of parameters"
     for (name, st) in params:
